@@ -16,8 +16,27 @@ pub struct Finding {
 
 /// every predicate known to the engine; whether it is active is decided by known_findings.json
 pub static ALL: &[Finding] = &[
-    // (entries are added below as findings are established)
+    Finding {
+        id: "K1-tan-accuracy",
+        props: &["C15"],
+        what: "P32E2::tan is 4 encodings from the correctly rounded value (stated bound 3) at exactly 54 of the 2^32 inputs (complete scan; results near +-7.9); kernel approximation error, no small repair",
+        pred: |v| v.op == "P32E2.tan" && v.kind == "wrong" && v.got.ends_with("(error 4)") && v.args.len() == 1 && TAN_EXCESS.contains(&(v.args[0] as u32)),
+    },
+    Finding {
+        id: "K2-powf-accuracy",
+        props: &["C15"],
+        what: "P32E2::powf exceeds its stated 5-encoding bound by a small amount at rare (x, y) in [0.5, 5)^2, e.g. powf(0x4ae14c0d, 0x4b045b10) is 6 off; keyed by function with a ceiling of 2 x bound (a larger error, NaR or a panic is still a violation)",
+        pred: |v| v.op == "P32E2.powf" && v.kind == "wrong" && excess_at_most(&v.got, 10),
+    },
 ];
+
+/// every input at which tan exceeds its bound on the current tree (complete 2^32 scan, `vcheck c15-scan tan`)
+pub static TAN_EXCESS: [u32; 54] = [0x5b1ee847, 0x5b1f0935, 0x5b1f0938, 0x5b1f0b08, 0x5b1f2191, 0x5b1f2c4a, 0x5b1f36b9, 0x5b1f3a5e, 0x647ff798, 0x64800f9c, 0x64801a22, 0x67a4433a, 0x6ac42489, 0x6ac42768, 0x6ac42890, 0x6cdd122f, 0x6da4203e, 0x6f1f21fe, 0x6fe62a04, 0x6fe62f7b, 0x721dcc90, 0x721dccae, 0x733ed35f, 0x7626ecd9, 0x7632b4da, 0x7b5842d9, 0x7c2f113d, 0x83d0eec3, 0x84a7bd27, 0x89cd4b26, 0x89d91327, 0x8cc12ca1, 0x8de23352, 0x8de23370, 0x9019d085, 0x9019d5fc, 0x90e0de02, 0x925bdfc2, 0x9322edd1, 0x953bd770, 0x953bd898, 0x953bdb77, 0x985bbcc6, 0x9b7fe5de, 0x9b7ff064, 0x9b800868, 0xa4e0c5a2, 0xa4e0c947, 0xa4e0d3b6, 0xa4e0de6f, 0xa4e0f4f8, 0xa4e0f6c8, 0xa4e0f6cb, 0xa4e117b9];
+
+/// parse "... (error N)" and test N <= ceiling
+fn excess_at_most(got: &str, ceiling: i64) -> bool {
+    got.rsplit_once("(error ").and_then(|(_, t)| t.trim_end_matches(')').parse::<i64>().ok()).map(|n| n <= ceiling).unwrap_or(false)
+}
 
 static OPEN: OnceLock<Vec<&'static Finding>> = OnceLock::new();
 
